@@ -92,6 +92,14 @@ func (p *pipeline) executeStage(parentStageID string, stage stagepkg.Stage) {
 	stageID := uuid.New().String()
 	p.sm.executeStage(parentStageID, stageID, stage)
 
+	defer func() {
+		if r := recover(); r != nil {
+			// the stage panicked while executing inline on this goroutine: complete it with the error,
+			// otherwise it stays pending forever and the pipeline never completes
+			p.sm.completeStage(stageID, errorpkg.Error(r))
+		}
+	}()
+
 	stage.Execute(stage.Plan(), func() {
 		// after current stage execute completed, then plan next stages
 		nextStages := stage.NextStages()
